@@ -180,6 +180,8 @@ def make_object(rng, counter):
     else:
         spec = {"t": "Object", "name": f"Own{counter[0]}", "kw": kw, "props": props, "base": None,
                 "id": 600 + counter[0]}
+    if spec["t"] == "Object" and "default" in spec["kw"] and rng.random() < 0.5:
+        spec["default_in_body"] = True      # `default = {...}` as a class variable (the other documented form)
     return spec, owner, props, kinds, overlap
 
 
